@@ -52,6 +52,10 @@ def cell(kind, tl, tr, L, R):
         return [text(L), T('#> nopartial', True), text(R + 'B'), tag('/nopartial', True)]
     if kind == 'pblockclose':
         return [tag('#> nopartial', True), text('B' + L), T('/nopartial', True), text(R)]
+    if kind == 'eachbp':
+        return [text(L), T('#each l as |x|', True), text(R + 'B'), tag('/each', True)]
+    if kind == 'withbp':
+        return [text(L), T('#with o as |w|', True), text(R + 'B'), tag('/with', True)]
     if kind == 'rawopen':
         # the body of a raw block is text: `{{x}}` in it is literal
         return [text(L), tag('raw', True, tl, tr, quad=True), text(R + '{{x}} B'), tag('/raw', True, quad=True)]
@@ -60,7 +64,7 @@ def cell(kind, tl, tr, L, R):
     raise ValueError(kind)
 
 KINDS = ['value', 'html', 'helper', 'open', 'close', 'else', 'elsechain', 'eachopen', 'comment', 'comment2',
-         'partial', 'inlineopen', 'inlineclose', 'pblockopen', 'pblockclose', 'rawopen', 'rawclose']
+         'partial', 'inlineopen', 'inlineclose', 'pblockopen', 'pblockclose', 'rawopen', 'rawclose', 'eachbp', 'withbp']
 
 def gen_cases(rng, tier, scale):
     cases = []
